@@ -228,6 +228,14 @@ var c08Payloads = map[string]string{
 	"dollar-at":      "$@ $* $# $? $0 $1",
 	"arith":          "a[$(touch CANARY_8)]",
 	"unicode":        "héllo wörld",
+	// what the language's own comments look like, inside data
+	"block-comment":        "a /* b */ c",
+	"block-comment-open":   "src/*/test",
+	"block-comment-close":  "x */ y",
+	"glob-path-two-stars":  "src/*/test/*/data",
+	"line-comment":         "http://host/path // tail",
+	"line-comment-on-second-line": "l1\n// l2 is not a comment\nl3",
+	"comment-in-comment":   "/* // */ // /*",
 }
 
 func checkC08(c *Check) {
